@@ -98,8 +98,29 @@ EXPR_KINDS = {"num", "opnd", "var", "un", "bin", "cast", "cond", "assign", "post
               "sizeof", "paren"}
 
 
+def no_new_constant_folding(stmts):
+    """a shrink step must not create literal-only operations / conditions (that is the domain of C09 and would
+    move the failure into a different class)"""
+    from .gen import is_const
+    for n in walk(stmts):
+        if not n or not isinstance(n[0], str):
+            continue
+        if n[0] == "bin" and is_const(n[2]) and is_const(n[3]):
+            return False
+        if n[0] == "un" and is_const(n[2]):
+            return False
+        if n[0] in ("if", "cond") and is_const(n[1]):
+            return False
+        if n[0] == "for" and n[2] is not None and is_const(n[2]):
+            return False
+    return True
+
+
 def shrink_program(stmts, still_fails, budget=60):
     """greedy structural shrink; still_fails(stmts) -> bool"""
+    if no_new_constant_folding(stmts):
+        inner = still_fails
+        still_fails = lambda s: no_new_constant_folding(s) and inner(s)
     cur = stmts
     tests = 0
     improved = True
@@ -390,7 +411,7 @@ def _gen_worker_kw(kw, pid, features, per, nstates, seed):
     return gen_worker(pid, features, per, nstates, seed, **kw)
 
 
-def replay_known(ctx, fmt="stmt"):
+def replay_known(ctx, fmt="stmt", replay_fn=None):
     """Replay the witness of every open finding of this property. Still failing -> KNOWN-FINDING line and the
     finding's generator feature stays excluded; no longer failing -> the feature is generated again.
     Returns the set of features to switch back on."""
@@ -399,7 +420,10 @@ def replay_known(ctx, fmt="stmt"):
         if f.get("status") != "open" or "program" not in f.get("witness", {}):
             continue
         w = f["witness"]
-        ok, msg = replay_program({"program": w["program"], "state": w["state"]}, w.get("fmt", fmt))
+        if replay_fn is not None:
+            ok, msg = replay_fn(w)
+        else:
+            ok, msg = replay_program({"program": w["program"], "state": w["state"]}, w.get("fmt", fmt))
         ctx.evaluations += 1
         if not ok:
             ctx.known_hit[f["id"]] = f
